@@ -291,6 +291,43 @@ func c12Run(s *c12Scn, pace *json.Encoder, logEnc *json.Encoder, mu *sync.Mutex)
 		}
 	}
 
+	if strings.HasPrefix(s.Kind, "interactive") && s.Long && !s.Early && len(events) > 1 && s.ID%2 == 0 {
+		// an earlier dialogue with the SAME event objects, whose expected responses then named something the device prints much
+		// earlier (the first line of its listing): the caller edits the events afterwards - the dialogue under observation waits
+		// for what the events say NOW
+		saved := make([]string, len(events))
+
+		for j, ev := range events {
+			saved[j] = ev.ChannelResponse
+
+			if ev.ChannelResponse != "" {
+				ev.ChannelResponse = fmt.Sprintf(`file-%d-000\.cfg`, j+1)
+			}
+		}
+
+		_, _ = withWatchdog(10*time.Second, func() { _, _ = gd.SendInteractive(events) })
+
+		for j, ev := range events {
+			ev.ChannelResponse = saved[j]
+		}
+
+		pipe.WaitDrained(time.Second)
+		time.Sleep(2 * time.Millisecond)
+
+		for {
+			b, _ := gd.Channel.ReadAll()
+			if b == nil {
+				break
+			}
+		}
+
+		if _, err = gd.SendCommand("show z8"); err != nil {
+			fail(&v, "C12:harness:warmup", "after the earlier dialogue: %v", err)
+
+			return v
+		}
+	}
+
 	if s.Kind == "command-doubled" {
 		// an unsolicited line that nobody has consumed yet stands in front of the echo; deliveries are spaced out
 		pipe.Inject([]byte("%LINK-3-UPDOWN: Interface x1, changed state\r\n"))
